@@ -153,8 +153,10 @@ def e_interface(c):
         kw['P'] = c.own([c.rng.uniform(0.1, 1.0, k) for k in c.n])
     if c.rng.random() < 0.5:
         kw['i'] = c.ind() if c.rng.random() < 0.6 else c.own([int(x) for x in c.ind()])
-    if c.rng.random() < 0.12:
+    if c.rng.random() < 0.3:
         # a call that is rejected in the middle of its sweep (index outside the tensor, weight row too short): the arguments stay as they were
+        if c.rng.random() < 0.7:
+            kw['ltr'] = True
         if c.rng.random() < 0.5:
             bad = [int(x) for x in c.ind()]
             bad[int(c.rng.integers(0, len(bad)))] = max(c.n) + 3
@@ -624,7 +626,15 @@ def e_svd_incomplete(c):
 @entry()
 def e_maxvol(c):
     r = int(c.rng.integers(1, 4))
-    A = _mat(c, r + int(c.rng.integers(1, 6)), r)
+    if c.rng.random() < 0.25:
+        # the coefficient matrix of an earlier, converged maxvol run (its dominant rows are unit vectors) is looked at again
+        A0 = c.rng.standard_normal((r + int(c.rng.integers(1, 6)), r))
+        try:
+            A = c.own(np.array(teneva.maxvol(A0, 1.0, 1000)[1]))
+        except Exception:
+            A = c.own(A0)
+    else:
+        A = _mat(c, r + int(c.rng.integers(1, 6)), r)
     kw = {} if c.rng.random() < 0.4 else {'e': float(_pick(c, [1.01, 1.05, 2.0])), 'k': int(_pick(c, [1, 5, 100]))}
     return Call('maxvol', teneva.maxvol, [A], kw)
 
@@ -789,7 +799,12 @@ def e_accuracy_on_data(c):
 def e_cache_to_data(c):
     if c.rng.random() < 0.3:
         return Call('cache_to_data', teneva.cache_to_data, [], defaults_dict='cache')
-    cache = c.own({tuple(int(x) for x in c.ind()): float(c.rng.standard_normal()) for _ in range(5)})
+    vals = {tuple(int(x) for x in c.ind()): float(c.rng.standard_normal()) for _ in range(5)}
+    if c.rng.random() < 0.3:
+        # an objective that failed at some indices left non-finite values behind
+        for k_ in list(vals)[:int(c.rng.integers(1, 3))]:
+            vals[k_] = float(_pick(c, [np.nan, np.inf, -np.inf]))
+    cache = c.own(vals)
     return Call('cache_to_data', teneva.cache_to_data, [cache])
 
 
@@ -1034,9 +1049,15 @@ def e_sample_rand(c):
 @entry(weight=2)
 def e_sample_rand_poi(c):
     d = len(c.n)
-    a = c.own((-1.0 - c.rng.random(d)).tolist())
-    b = c.own((1.0 + c.rng.random(d)))
-    return Call('sample_rand_poi', teneva.sample_rand_poi, [a, b, int(c.rng.integers(1, 9))], {'seed': c.seed()}, seed_kw='seed')
+    av = -1.0 - c.rng.random(d)
+    bv = 1.0 + c.rng.random(d)
+    rejected = c.rng.random() < 0.1
+    if rejected:
+        j = int(c.rng.integers(0, d))
+        av[j], bv[j] = bv[j], av[j]         # limits in the wrong order in one dimension: rejected, the arguments stay as they are
+    a = c.own(av.tolist()) if c.rng.random() < 0.7 else c.own(av)
+    b = c.own(bv)
+    return Call('sample_rand_poi', teneva.sample_rand_poi, [a, b, int(c.rng.integers(1, 9))], {'seed': c.seed()}, seed_kw='seed', may_fail=rejected)
 
 
 @entry(weight=2)
